@@ -53,6 +53,9 @@ VICTIM = [
     'io.write("w") print("p", 1) emit("io", io.type(io.stdout), tostring(io.stdout):sub(1, 4))',
     'emit("ctx", tostring(runtime.context()), runtime.context().flags)',
     'local ok, e = pcall(string.rep) emit("err", ok, e)',
+    'emit("lim", tostring(runtime.context().kill.cpu), tostring(runtime.context().kill.memory), runtime.context().flags)',
+    'emit("pat", ("hello world"):match("(%w+) (%w+)"), ("a1b22c333"):gsub("%d+", "#"), ("x=1, y=2"):find("(%w+)=(%w+)"))',
+    'local n = 0 for i = 1, 200 do for w in ("k1=v1;k2=v2;k3=v3"):gmatch("(%w+)=%w+") do n = n + #w end if ("abc" .. i):match("^%a+(%d+)$") then n = n + 1 end end emit("patloop", n)',
     'emit("g2", rawget(_G, "hacked"), rawget(_G, "x") == x, type(string.upper), type(tostring))',
 ]
 RNG_VICTIM = [
@@ -83,7 +86,9 @@ ADVERSARY = [
     'for k in pairs(_G) do if k ~= "emit" then _G[k] = nil end end',
     'debug.sethook(function() end, "", 1)',
     'collectgarbage("collect") collectgarbage("step")',
+    'for i = 1, 300 do local _ = ("zz" .. i):find("z+%d") _ = ("q,r,s"):gsub("[^,]+", "%0%0") end',
 ]
+OPTIONS = ["cpu:1000000000", "cpu:3000", "regpool:20,regage:3", "cpu:60000,regpool:20", "mem:100000000", "cpu:1000000000,regpool:1,regage:1"]
 RNG_ADVERSARY = ['math.randomseed(7)', 'math.random()', 'math.random(10) math.random(10)']
 GC_ADVERSARY_STOP = 'collectgarbage("stop")'
 GC_ADVERSARY_RESTART = 'collectgarbage("restart")'
@@ -108,6 +113,9 @@ def gen_pair(rng, kind):
     sched = "".join(rng.choice("AB") for _ in range(len(A) + len(B)))
     if kind == "gc":
         sched = "ABABAAB"
+    if kind == "opt":
+        # B (created without options, after A) is an observer that looks at its own limits and flags
+        B = [VICTIM[-4]] + [rng.choice(VICTIM) for _ in range(nb)] + [VICTIM[-4]]
     return A, B, sched
 
 
@@ -215,14 +223,14 @@ def run(tier, seed):
         for l in open(cfile):
             if l.strip():
                 c = json.loads(l)
-                pairs.append(("corpus", c["A"], c["B"], c["schedule"]))
+                pairs.append(("corpus", c["A"], c["B"], c["schedule"], c.get("opts")))
     ck.cov["corpus_pairs"] = len(pairs)
     for i in range(npairs):
-        kind = "rng" if i % 10 == 3 else ("gc" if i % 50 == 7 else "plain")
+        kind = "rng" if i % 10 == 3 else ("gc" if i % 50 == 7 else ("opt" if i % 6 == 5 else "plain"))
         A, B, sched = gen_pair(ck.rng, kind)
-        pairs.append((kind, A, B, sched))
-    lines = ["p%d %s %s %s" % (i, "\n--\n".join(A).encode().hex(), "\n--\n".join(B).encode().hex(), sched)
-             for i, (kind, A, B, sched) in enumerate(pairs)]
+        pairs.append((kind, A, B, sched, OPTIONS[(i // 6) % len(OPTIONS)] if kind == "opt" else None))
+    lines = ["p%d %s %s %s%s" % (i, "\n--\n".join(A).encode().hex(), "\n--\n".join(B).encode().hex(), sched, " opts=" + o if o else "")
+             for i, (kind, A, B, sched, o) in enumerate(pairs)]
     k_rng = next((k for k in ck.known if k.get("status") == "open" and k.get("match", {}).get("tag") == "rng"), None)
     k_gc = next((k for k in ck.known if k.get("status") == "open" and k.get("match", {}).get("tag") == "gc"), None)
     k_race = next((k for k in ck.known if k.get("status") == "open" and k.get("match", {}).get("race_frame")), None)
@@ -234,7 +242,7 @@ def run(tier, seed):
             if i >= len(sub):
                 break
             idx = sub[i]
-            kind, A, B, sched = pairs[idx]
+            kind, A, B, sched, popts = pairs[idx]
             f = l.split(" ")
             fields = {x[:2]: x[3:] for x in f[1:] if len(x) > 2 and x[2] == ":"}
             if len(f) < 2 or f[1] in ("CRASH", "HANG") or "SA" not in fields:
@@ -246,6 +254,24 @@ def run(tier, seed):
             ck.case("%s|%s|%s|%s" % (label, "\n--\n".join(A), "\n--\n".join(B), sched), nontrivial=True)
             ck.count("pair:" + kind)
             ck.count("run:" + label)
+            if label.startswith("race") and all(re.search(r":(match|gsub|gmatch|find)\(\"[^\"]*[%^$+*]", "\n".join(P)) for P in (A, B)):
+                ck.count("race-pairs-with-pattern-matching-in-both-programs")
+            if popts and idx in ref_b:
+                # B was created WITHOUT options (after A, created with options): its three traces must equal the trace it
+                # has in the reference process where no runtime was ever given options
+                for mk in ("SB", "QB", "CB"):
+                    other = split_trace(fields[mk])
+                    dv = diff_events(ref_b[idx], other)
+                    if dv:
+                        nviol += 1
+                        if nviol <= 6:
+                            ck.violation("a runtime created without options behaves differently after another runtime was created with "
+                                         "RuntimeOptions %s (%s, %s build): event %d expected %s, got %s" % (popts, mk, label, dv[0][0], dv[0][1], dv[0][2]),
+                                         {"kind": "Go!=S", "engine": "iso", "A": A, "B": B, "schedule": sched, "opts": popts, "who": "B", "mode": mk,
+                                          "build": label, "solo": ref_b[idx], "with_partner": other, "differences": dv[:10],
+                                          "theorem": "C20_noninterference (hypothesis no_shared_write fails for the code: rt.New writes shared state)"})
+                        break
+                ck.count("options:" + popts)
             for who, solo_k, modes in (("A", "SA", ("QA", "CA")), ("B", "SB", ("QB", "CB"))):
                 solo = split_trace(fields[solo_k])
                 for mk in modes:
@@ -279,6 +305,18 @@ def run(tier, seed):
                                       "theorem": "C20_noninterference (hypothesis no_shared_write fails for the code)"})
 
     alli = list(range(len(lines)))
+    # reference for the option pairs: the same lines in a process that ignores the options
+    ref_b = {}
+    opt_idx = [i for i in alli if pairs[i][4]]
+    if opt_idx:
+        for j in range(0, len(opt_idx), 300):
+            part = opt_idx[j:j + 300]
+            o = vlib.run_lines_resilient(gvh, ["noopts"], [lines[i] for i in part], per_case_timeout=60, env={"GOMAXPROCS": "4"})
+            for i, l in zip(part, o):
+                m = re.search(r" SB:([0-9a-f]*)", l)
+                if m:
+                    ref_b[i] = split_trace(m.group(1))
+    ck.cov["option_pairs"] = len(opt_idx)
     # the four race-build runs go on in the background while the plain build does the full sweep
     race_jobs = []
     if gvh_race is not None:
@@ -339,7 +377,7 @@ def run(tier, seed):
                          {"kind": "race", "report": blk, "gomaxprocs": v["gomaxprocs"], "count": v["n"]})
     for ex in (0, 3, 7, len(lines) - 1):
         if ex < len(outs):
-            kind, A, B, sched = pairs[ex]
+            kind, A, B, sched, popts = pairs[ex]
             ck.sample({"kind": kind, "A": A, "B": B, "schedule": sched,
                        "A_solo_trace": bytes.fromhex(outs[ex].split(" ")[1][3:]).decode("utf-8", "replace")[:300] if " SA:" in outs[ex] else outs[ex][:200]})
 
@@ -383,6 +421,8 @@ def replay(path, seed):
     race = r.get("build", "").startswith("race")
     gvh, _ = ck.build_gvh(pkg="./cmd/gvh-iso", name="gvh_iso_race" if race else "gvh_iso", race=race)
     line = "r %s %s %s" % ("\n--\n".join(r["A"]).encode().hex(), "\n--\n".join(r["B"]).encode().hex(), r["schedule"])
+    if r.get("opts"):
+        line += " opts=" + r["opts"]
     rc, out, se = vlib.run_lines(gvh, [], [line], env={"GOMAXPROCS": "4"})
     for x in (out[0].split(" ")[1:] if out else []):
         print(x[:2], bytes.fromhex(x[3:]).decode("utf-8", "replace"))
